@@ -35,6 +35,8 @@ def _elementwise(name, sf):
         from . import absarr
         if isinstance(x, absarr.AbsArr):
             return absarr.np_call(it, ctx, name, (x,) + rest, kw)
+        if isinstance(x, MaskedSel):
+            return MaskedSel(map_arr(x.arr, sf), x.mask)
         if isinstance(x, (list, tuple)):
             x = vec_from_nested(x)
         if is_arr(x):
@@ -709,7 +711,16 @@ def install(it):
     reg("unwrap", lambda it_, ctx, a, **kw: (_ for _ in ()).throw(Unsupported("np.unwrap")))
     reg("errstate", lambda it_, ctx, **kw: None)
     reg("seterr", lambda it_, ctx, **kw: None)
-    reg("finfo", lambda it_, ctx, t: Opaque("np.finfo"))
+    def np_finfo(it_, ctx, t=None):
+        nm = getattr(t, "name", "")
+        if nm in ("np.float64", "np.float_", "np.float", "float") or t is None:
+            # IEEE double: exact rational constants
+            m = ModuleVal("np.finfo(float64)", "lib")
+            m.loaded = True
+            m.globals.update(eps=Fraction(1, 2 ** 52), tiny=Fraction(1, 2 ** 1022), max=Fraction(2 ** 1024 - 2 ** 971))
+            return m
+        return Opaque("np.finfo")
+    reg("finfo", np_finfo)
     reg("shape", lambda it_, ctx, a: ndarray_attr(it_, ctx, a, "shape") if is_arr(a) else ())
     reg("ndim", lambda it_, ctx, a: ndarray_attr(it_, ctx, a, "ndim") if is_arr(a) else 0)
     reg("size", lambda it_, ctx, a: ndarray_attr(it_, ctx, a, "size") if is_arr(a) else 1)
